@@ -127,6 +127,24 @@ def replay_clip():
             if e > 1e-4:
                 details.append({"corner": list(corner), "max_abs_err": e})
             worst = max(worst, e)
+        # a template that overhangs BOTH faces of the tomogram along an axis (slab thinner than the template)
+        for shape, off in (((3, 20, 20), (1.0, 8.0, 9.0)), ((20, 2, 20), (9.0, 0.5, 8.0)), ((3, 20, 4), (1.0, 7.0, 1.5))):
+            pos = np.array(off)
+            try:
+                sim = TomogramSimulator(order=1, scale=1.0)
+                sim.add_molecules(Molecules([pos]), tmpl)
+                small = sim.simulate(shape)
+                big = TomogramSimulator(order=1, scale=1.0)
+                big.add_molecules(Molecules([pos + 10]), tmpl)
+                ref = big.simulate(tuple(s + 20 for s in shape))[tuple(slice(10, 10 + s) for s in shape)]
+                e = float(np.abs(small - ref).max())
+            except Exception as ex:
+                details.append({"slab": list(shape), "raised": repr(ex)[:160]})
+                worst = max(worst, 1.0)
+                continue
+            if e > 1e-4:
+                details.append({"slab": list(shape), "max_abs_err": e})
+            worst = max(worst, e)
         return worst > 1e-4, {"max_abs_err_vs_padded_reference": worst, "failing_corners": details[:4], "n_failing": len(details)}
 
     return run
@@ -488,6 +506,14 @@ def sec_history(rec, patches=None):
                     rec.query(f"{tag}/path{pi}/{name}/template-provided-at-the-simulator's-scale", h, zr(prov[1]) == sc.e, key="C14/history/stale-template", replay=replay_history, names={"scale", "scale2"})
 
 
+def sec_sampling_rule(rec, patches=None):
+    """loading at a molecule samples the tomogram on the molecule's grid, also when the crop window (box + spline margin) crosses a low face of the tomogram
+    (executed by C02's sampling section; 'loading a sub-tomogram at a simulated molecule returns the template' rests on it)"""
+    from .c02 import sec_sampling
+
+    sec_sampling(rec, order=1, corner_safe=False, patches=patches)
+
+
 def sec_conformance(rec):
     """translator validation: _prep_iterators symbolic-on-concrete equals the installed function"""
     from acryo.simulator import _prep_iterators
@@ -520,7 +546,7 @@ def sec_conformance(rec):
 
 
 def sections(tier):
-    return [("conformance", "checks.c14", "sec_conformance", {}), ("rule", "checks.c14", "sec_rule", {"n_mol": 1}), ("rule-2mol", "checks.c14", "sec_rule", {"n_mol": 2}),
+    return [("conformance", "checks.c14", "sec_conformance", {}), ("sampling-rule", "checks.c14", "sec_sampling_rule", {}), ("rule", "checks.c14", "sec_rule", {"n_mol": 1}), ("rule-2mol", "checks.c14", "sec_rule", {"n_mol": 2}),
             ("slices", "checks.c14", "sec_slices", {}), ("fragments-3d", "checks.c14", "sec_fragments", {"two_d": False}),
             ("fragments-2d", "checks.c14", "sec_fragments", {"two_d": True}), ("history", "checks.c14", "sec_history", {})]
 
